@@ -83,7 +83,19 @@ func c02Eval(r *hx.Run, cs c02Case, dir string) {
 				run  func(reporter.Summary) error
 			}{
 				{"console", func(s reporter.Summary) error {
-					return reporter.NewConsoleReporter(&bytes.Buffer{}, checks.Information, true, false).Submit(s)
+					var cb bytes.Buffer
+					if err := reporter.NewConsoleReporter(&cb, checks.Information, true, false).Submit(s); err != nil {
+						return err
+					}
+					// a renderable verdict says what is wrong: every diagnostic's message is in the console output
+					for _, rp := range s.Reports() {
+						for _, d := range rp.Problem.Diagnostics {
+							if first := strings.SplitN(d.Message, "\n", 2)[0]; first != "" && !strings.Contains(cb.String(), first) {
+								return fmt.Errorf("diagnostic message of %s missing from the console output: %q", rp.Problem.Reporter, first)
+							}
+						}
+					}
+					return nil
 				}},
 				{"json", func(s reporter.Summary) error { return reporter.NewJSONReporter(&bytes.Buffer{}).Submit(s) }},
 				{"checkstyle", func(s reporter.Summary) error { return reporter.NewCheckStyleReporter(&bytes.Buffer{}).Submit(s) }},
@@ -243,6 +255,19 @@ var c02HostileTemplates = []string{
 }
 
 var c02Snippets = []string{
+	// anchors that contain themselves (yaml.v3 builds a cyclic node graph) and alias bombs
+	"groups:\n- name: g\n  rules:\n  - alert: A\n    expr: up == 0\n    for: \"\"\n",
+	"x: &a [*a]\n",
+	"x: &a {k: *a}\n",
+	"groups:\n- name: g\n  rules: &r\n  - record: a\n    expr: up\n  - *r\n",
+	"- &a\n  record: a\n  expr: up\n  labels: {x: y}\n- [*a, *a, [*a]]\n",
+	"a0: &a0 [x, y]\n" + func() string {
+		s := ""
+		for i := 1; i <= 30; i++ {
+			s += fmt.Sprintf("a%d: &a%d [*a%d, *a%d]\n", i, i, i-1, i-1)
+		}
+		return s
+	}(),
 	"\"\n",
 	"z: 'a\n",
 	"groups:\n- name: g\n  rules:\n  - record: a\n    expr: \"up\n",
